@@ -170,8 +170,11 @@ def make_replay(chk, view, meth, argsyms, lib, ref, ranges=None, int_args=(), th
         coords = [a.p for a in argsyms if isinstance(a, T) and a.op == 'sym']
         steps = [('init', view.scalar, 'h', view.name)]
         envs = []
-        for i in range(6):
+        zero_names = [n for n in names if model and model.get(n) == 0][:6]
+        for i in range(6 + len(zero_names)):
             env = rand_env(rng, names, coords, ranges)
+            if i >= 6:
+                env[zero_names[i - 6]] = Fraction(0)     # one special value of the counterexample at a time, everything else generic
             if i == 5:
                 # same point as the previous evaluation, other parameter values (anything remembered per point would show)
                 for c_ in coords:
@@ -183,6 +186,21 @@ def make_replay(chk, view, meth, argsyms, lib, ref, ranges=None, int_args=(), th
                     v_ = model.get(n)
                     if v_ is not None and abs(v_) < 10 ** 6:
                         env[n] = v_
+            if i in (2, 3) and model:
+                # only the SPECIAL values of the counterexample (parameters that are exactly 0 -- one of them at a time in the extra points --, parameters that
+                # coincide), everything else generic: the solver is free to pick degenerate values for the parameters a guard does not mention
+                zeros = [n for n in names if model.get(n) == 0]
+                for n in (zeros if i == 2 else []):
+                    env[n] = Fraction(0)
+                if i == 2:
+                    byval = {}
+                    for n in names:
+                        v_ = model.get(n)
+                        if v_ is not None and v_ != 0:
+                            byval.setdefault(v_, []).append(n)
+                    for grp in byval.values():
+                        for n in grp[1:]:
+                            env[n] = env[grp[0]]
             envs.append(env)
             for n in names:
                 steps.append(('set', view.scalar, n, env[n]))
